@@ -114,6 +114,16 @@ def generate(rng, tier, idx):
         sc['text'] = text
         sc['shape'] = rng.choice(['plain', 'std'])
         sc['bufsize'] = rng.choice([1, 7, 512, 8192])
+    er = rng.random()
+    if er < 0.06:
+        sc['entry'] = 'num_rows'
+        sc['num_rows'] = rng.choice([1, 2, 3])
+        sc['line_mode'] = False
+    elif er < 0.16 and sc['level'] != 'text':
+        # the reader's other users: rbql_main.sample_lines / sample_records and the CSV join registry, all of which open the
+        # file themselves (the schedule is delivered through the tracked open() seam)
+        sc['entry'] = rng.choice(['sample_lines', 'sample_records', 'join_registry'])
+        sc['line_mode'] = False
     text = sc['text']
     n = len(text) if sc['level'] == 'text' else len(text.encode('utf-8'))
     limit = 8 if sc['level'] == 'text' else 7
@@ -141,9 +151,62 @@ def scenario_bytes(sc):
     return sc['text'].encode('utf-8')
 
 
+def read_via_entry(t, sc, pieces, stats):
+    """sample_lines / sample_records / FileSystemCSVRegistry: they call open() themselves; the tracked open() hands them a
+    BufferedReader over the scheduled raw source. chunk_size is whatever those callers use (the default)."""
+    import io
+    import os
+    from .. import fsseam
+    from ..streams import SimRawSource
+    w = fsseam.work_dir()
+    path = os.path.join(w, 'c12_table.csv')
+    data = scenario_bytes(sc)
+    with open(path, 'wb') as f:
+        f.write(data)
+    tracker = fsseam.OpenTracker()
+    holder = {}
+
+    def sub(mode):
+        holder['raw'] = SimRawSource(data, pieces)
+        return io.BufferedReader(holder['raw'], buffer_size=max(1, sc.get('bufsize', 8192)))
+    tracker.substitutes[path] = sub
+    entry = sc['entry']
+    try:
+        with fsseam.ProcessSeam(t, tracker=tracker) as seam:
+            if entry == 'sample_lines':
+                out = ['lines', t.main.sample_lines(path, sc['level'], sc['delim'], sc['policy'], sc['comment_prefix'])]
+            elif entry == 'sample_records':
+                recs, warns = t.main.sample_records(path, sc['delim'], sc['policy'], sc['level'], sc['comment_prefix'])
+                out = ['sampled', recs, warns]
+            else:
+                reg = t.csv.FileSystemCSVRegistry(w, sc['delim'], sc['policy'], sc['level'], sc['has_header'], sc['comment_prefix'])
+                try:
+                    it = reg.get_iterator_by_table_id('c12_table.csv', 'b')
+                    recs = it.get_all_records()
+                    out = ['join', recs, it.get_header(), it.get_warnings(), reg.get_warnings()]
+                finally:
+                    reg.finish()
+        seam.restore_hook()
+    except t.engine.RbqlIOHandlingError as e:
+        out = ['ioerr', str(e)]
+    except Exception as e:
+        out = ['exc', type(e).__name__, str(e)]
+    finally:
+        tracker.close_all()
+        try:
+            os.unlink(path)
+        except OSError:
+            pass
+    if stats is not None and 'raw' in holder:
+        stats['nreads'] = holder['raw'].nreads
+    return out
+
+
 def read_case(t, sc, pieces, chunk_size, stats=None):
     """Run the real reader over one delivery schedule. Returns a JSON-able outcome."""
     level = sc['level']
+    if sc.get('entry') in ('sample_lines', 'sample_records', 'join_registry'):
+        return read_via_entry(t, sc, pieces, stats)
     if level == 'text':
         stream = SimTextSource(sc['text'], pieces)
         enc = None
@@ -161,6 +224,9 @@ def read_case(t, sc, pieces, chunk_size, stats=None):
                     break
                 records.append(row)
             out = ['rows', records, it.get_warnings()]
+        elif sc.get('entry') == 'num_rows':
+            records = it.get_all_records(num_rows=sc['num_rows'])
+            out = ['ok', records, it.get_header(), it.get_warnings()]
         else:
             while True:
                 rec = it.get_record()
@@ -302,11 +368,11 @@ def execute(sc):
     counters = {}
     n = len(sc['text']) if sc['level'] == 'text' else len(scenario_bytes(sc))
     ref = read_case(t, sc, [n] if n else [], n + 1)
-    model = model_outcome(t, sc)
+    model = model_outcome(t, sc) if not sc.get('entry') else ref
     res = {'verdict': 'ok', 'oracle': None, 'counters': counters, 'evals': 0, 'nontrivial': 0, 'steps': 0}
     if sc['kind'] == 'batch':
         res['key'] = core.key64([sc['level'], sc['text'], sc['policy'], sc['delim'], sc['comment_prefix'], sc['has_header'], sc['line_mode'],
-                                 sc.get('shape'), sc.get('bufsize')])
+                                 sc.get('shape'), sc.get('bufsize'), sc.get('entry'), sc.get('num_rows')])
     else:
         res['key'] = core.key64(sc)
     if ref != model:
@@ -366,6 +432,8 @@ def execute(sc):
         bump(counters, 'probe.bom_dropped')
     if n >= 1000:
         bump(counters, 'probe.content_crosses_default_chunk_size')
+    if sc.get('entry'):
+        bump(counters, 'entry.' + sc['entry'])
     res['digest'] = core.digest([ref, model, res['evals'], res['verdict']])
     return res
 
@@ -425,7 +493,7 @@ def shrinks(sc):
         c['pieces'] = pieces[:i] + [pieces[i] + pieces[i + 1]] + pieces[i + 2:]
         yield c
     # default knobs
-    for k, v in (('comment_prefix', None), ('has_header', False), ('line_mode', False), ('shape', 'plain'), ('bufsize', 8192), ('chunk_size', 1024)):
+    for k, v in (('comment_prefix', None), ('has_header', False), ('line_mode', False), ('shape', 'plain'), ('bufsize', 8192), ('chunk_size', 1024), ('entry', None)):
         if k in sc and sc[k] != v:
             c = dict(sc)
             c[k] = v
